@@ -11,7 +11,7 @@ import UgoVerif.Proofs.ExecAtStartsThrow
   function at offset 0 or, for a builtin, skips its operands; RETURN resumes behind the operands of
   the caller's CALL; errors go to `throw`.
 -/
-namespace UgoVerif.VM
+namespace UgoVerif.VM.Cfi
 open UgoVerif UgoVerif.Go
 open UgoVerif.Compile (Walk Bd readBE opWidth)
 
@@ -456,4 +456,4 @@ theorem xs_execThrow (hnext : Bd code.insts (p + 1 + 1)) : OpSpec code p execThr
   · tqs ((p : Int) + 1) StepQ
 
 end
-end UgoVerif.VM
+end UgoVerif.VM.Cfi
